@@ -396,6 +396,8 @@ def write_evidence(prop, tier, seed_value, results, wall, nviol, extra=None):
     classes_all = collections.Counter()
     known = collections.Counter()
     for r in results:
+        if r["sub"] == "wall-clock-guard":
+            continue
         d = per_sub.setdefault(r["sub"], {"evaluations": 0, "nontrivial": set(), "classes": collections.Counter(),
                                           "budget_hit": False, "skipped": 0, "shards": 0})
         d["evaluations"] += r["evaluations"]
@@ -592,8 +594,11 @@ def main(prop, argv=None):
                               open(hp, "w"), indent=1)
                     print(f"  a worker had been executing one case of sub={body['sub']} for {now - body['t']:.0f}s: {hp}")
             print(f"HARNESS-ERROR property={prop.ID} wall-clock guard of {limit:.0f}s hit with {len(running) + len(pending)} "
-                  f"shard(s) unfinished: inconclusive (a hang inside the library or the harness)")
-            return 2
+                  f"shard(s) unfinished: inconclusive for those (a hang inside the library or the harness)")
+            # violations already found by the shards that finished are still reported below (exit 1); otherwise exit 2
+            results.append({"sub": "wall-clock-guard", "shard": -1, "evaluations": 0, "nontrivial": [], "classes": {}, "samples": [],
+                            "known_hits": {}, "known_examples": {}, "excluded_hits": {}, "budget_hit": True, "skipped": 0,
+                            "violations": [], "harness_error": "wall-clock guard hit", "wall": 0.0})
     wall = time.time() - t0
 
     harness = [r for r in results if r["harness_error"]]
